@@ -370,6 +370,8 @@ This decides `no new unaudited panic/recursion/loop site`, the enumerated necess
     withdraw(m, ctx);
     dead_guard(m, ctx);
     oid_arcs_invariant(m, ctx);
+    // the audit entry of union_single_and_range's `chars.get(&i).unwrap()` relies on tables keyed by position
+    crate::rules::c15::charset_keys(m, ctx, "C08.charset");
     // the audit entry of inner_name's format_ident! ("parent is a generated type name") is tied to the one caller that builds
     // the parent from a string it splits itself
     crate::rules::c07::nested_choice_ident(m, ctx, "C08.ident");
